@@ -68,6 +68,7 @@ func cmdCheck(args []string) {
 	start := time.Now()
 	timeout := 45
 	if *tier == "thorough" {
+		thoroughTier = true
 		timeout = 150
 	}
 	evPath := filepath.Join(*verif, "evidence", prop+".json")
